@@ -564,3 +564,24 @@ var JournalCommandUses = map[string]bool{
 func IsImporterCmd(cmd *Command) bool {
 	return strings.Contains(PkgPathOf(cmd.Ctor), "/cmd/importer/")
 }
+
+// NearPos returns the position of ins, or of the closest later instruction in
+// its block that has one (loads and field addresses carry no position).
+func NearPos(ins ssa.Instruction) token.Pos {
+	if ins.Pos().IsValid() {
+		return ins.Pos()
+	}
+	b := ins.Block()
+	i := InstrIndex(ins)
+	for j := i + 1; j < len(b.Instrs); j++ {
+		if b.Instrs[j].Pos().IsValid() {
+			return b.Instrs[j].Pos()
+		}
+	}
+	for j := i - 1; j >= 0; j-- {
+		if b.Instrs[j].Pos().IsValid() {
+			return b.Instrs[j].Pos()
+		}
+	}
+	return ins.Parent().Pos()
+}
